@@ -25,13 +25,16 @@ type GraphCfg struct {
 
 // Cfg is one configuration of the scheduler harness.
 type Cfg struct {
-	G       GraphCfg `json:"g"`
-	Cancel  string   `json:"cancel,omitempty"` // "", "external"
-	Real    bool     `json:"real,omitempty"`   // real TaskRunner with echo-seam commands
-	Index   int64    `json:"index"`
-	Alias   int      `json:"alias,omitempty"`    // naming scheme of the real stages (the harness keeps its own unique keys)
-	ErrKind int      `json:"err_kind,omitempty"` // which error value a failing task returns (0 plain, 1 context.DeadlineExceeded, 2 context.Canceled, 3 wrapped deadline, 4 interpreter exit status)
-	Shared  bool     `json:"shared,omitempty"`   // every leaf stage refers to ONE task object; the stage is told apart by a stage-level env entry
+	G           GraphCfg `json:"g"`
+	Cancel      string   `json:"cancel,omitempty"` // "", "external"
+	Real        bool     `json:"real,omitempty"`   // real TaskRunner with echo-seam commands
+	Index       int64    `json:"index"`
+	Alias       int      `json:"alias,omitempty"`        // naming scheme of the real stages (the harness keeps its own unique keys)
+	ErrKind     int      `json:"err_kind,omitempty"`     // which error value a failing task returns (0 plain, 1 context.DeadlineExceeded, 2 context.Canceled, 3 wrapped deadline, 4 interpreter exit status)
+	Shared      bool     `json:"shared,omitempty"`       // every leaf stage refers to ONE task object; the stage is told apart by a stage-level env entry
+	SharedInner bool     `json:"shared_inner,omitempty"` // inner pipelines with identical definitions are ONE ExecutionGraph object (two stages that say `pipeline: X`)
+	NoPark      bool     `json:"no_park,omitempty"`      // tasks do not park: one canonical completion order (wide graphs)
+	Attrs       int      `json:"attrs,omitempty"`        // task attributes that must be irrelevant to scheduling: 1 interactive, 2 timeout, 4 export_as, 8 context name, 16 dir
 }
 
 // aliasOf maps a harness stage key to the name the real stage gets. Scheme 1 gives the stages of the
@@ -72,6 +75,15 @@ func (c Cfg) extras() string {
 	}
 	if c.Shared {
 		x += " shared-task"
+	}
+	if c.SharedInner {
+		x += " shared-inner-graph"
+	}
+	if c.NoPark {
+		x += " no-park"
+	}
+	if c.Attrs != 0 {
+		x += fmt.Sprintf(" attrs:%d", c.Attrs)
 	}
 	return x
 }
@@ -118,7 +130,8 @@ type Model struct {
 	Err       bool
 	Ambiguous bool // a condition-false stage has a failed/cancelled ancestor: the statement's two clauses disagree
 	deps      map[string][]string
-	parent    map[string]string // inner stage -> enclosing stage
+	parent    map[string]string   // inner stage -> enclosing stage (the last one evaluated)
+	parents   map[string][]string // inner stage -> every enclosing stage (a pipeline object may be included by several stages)
 }
 
 func topo(g *GraphCfg) []int {
@@ -147,16 +160,29 @@ func topo(g *GraphCfg) []int {
 }
 
 func evalModel(g *GraphCfg) *Model {
-	m := &Model{Class: map[string]string{}, Run: map[string]bool{}, deps: map[string][]string{}, parent: map[string]string{}}
+	m := &Model{Class: map[string]string{}, Run: map[string]bool{}, deps: map[string][]string{}, parent: map[string]string{}, parents: map[string][]string{}}
 	m.Err = m.eval(g, "")
 	return m
 }
 
+func (m *Model) addParent(name, parent string) {
+	for _, p := range m.parents[name] {
+		if p == parent {
+			return
+		}
+	}
+	m.parents[name] = append(m.parents[name], parent)
+}
+
 func (m *Model) markNotRun(g *GraphCfg, parent string) {
 	for _, s := range g.Stages {
+		m.addParent(s.Name, parent)
+		m.deps[s.Name] = s.Deps
+		if c, ok := m.Class[s.Name]; ok && c != clNotRun {
+			continue // the same pipeline object was run through another stage that includes it
+		}
 		m.Class[s.Name] = clNotRun
 		m.parent[s.Name] = parent
-		m.deps[s.Name] = s.Deps
 		if s.Inner != nil {
 			m.markNotRun(s.Inner, s.Name)
 		}
@@ -170,6 +196,7 @@ func (m *Model) eval(g *GraphCfg, parent string) bool {
 		s := g.Stages[i]
 		m.deps[s.Name] = s.Deps
 		m.parent[s.Name] = parent
+		m.addParent(s.Name, parent)
 		blocked := false
 		for _, d := range s.Deps {
 			if m.Class[d] == clFailed || m.Class[d] == clCancelled || blockedAnc[d] {
@@ -236,7 +263,13 @@ func (m *Model) eligible(ended map[string]bool, g *GraphCfg) []string {
 	}
 	walk(g, true)
 	sort.Strings(out)
-	return out
+	uniq := out[:0]
+	for i, s := range out { // a shared pipeline object is reached through each including stage
+		if i == 0 || s != out[i-1] {
+			uniq = append(uniq, s)
+		}
+	}
+	return uniq
 }
 
 // final reports whether stage d (of graph g) has reached its final state given ended tasks.
